@@ -22,6 +22,11 @@ EPS = {"float64": 2.220446049250313e-16, "float32": 1.1920928955078125e-07}
 TOL_D = {"float64": 1e-9, "float32": 1e-4}
 TOL_G = {"float64": 1e-8, "float32": 1e-4}
 F32_EXP_MAX = 88.72          # torch.exp overflows binary32 above 88.7228...
+# csample(b, v) against its specification (the relaxed sample of THIS distribution at the uniform point
+# of the region of b, computed without cancellation): looser, `1 - probs` inside csample loses
+# digits long before the clamp becomes active (sigmoid(20) in float64: 5e-8)
+TOL_SPEC = {"float64": 1e-6, "float32": 1e-3}
+SIG_CLAMP = "C19.relaxed.csample_clamped_probs"
 
 
 def _dy(rng, lo, hi, den):
@@ -118,9 +123,11 @@ LB_PROBS = [Fr(0), Fr(1, 1 << 60), Fr(1, 1 << 53), _T24, Fr(1, 16), Fr(1, 2), Fr
             1 - Fr(1, 1 << 53), Fr(1)]
 LB_LOGITS = [Fr(x) for x in (-100, -88, -37, -20, -17, 17, 20, 37, 88, 100)] + [Fr(-6), Fr(-3, 2), Fr(0),
                                                                                Fr(1, 4), Fr(2), Fr(7)]
-G_GRID = [Fr(0), Fr(1, 1 << 40), Fr(1, 1 << 13), Fr(1, 1 << 10), Fr(1, 16), Fr(1, 2), Fr(15, 16),
-          1 - Fr(1, 1 << 24), 1 - Fr(1, 1 << 53), Fr(1)]
-G_GRID_Q = [Fr(0), Fr(1, 1 << 40), Fr(1, 1 << 13), Fr(1, 2), 1 - Fr(1, 1 << 24), 1 - Fr(1, 1 << 53), Fr(1)]
+# draws for the categorical relaxation: dyadic values near 0 at several scales (z_k = -log(-log v_k)
+# then spans [-3.6, -2]), the middle, and values within a few ulp of 1 (incl. 0 and 1 themselves)
+G_GRID = [Fr(0), Fr(1, 1 << 44), Fr(1, 1 << 22), Fr(1, 1 << 14), Fr(1, 1 << 11), Fr(1, 16), Fr(1, 2),
+          Fr(15, 16), 1 - Fr(1, 1 << 24), 1 - Fr(1, 1 << 53), Fr(1)]
+G_GRID_Q = [Fr(0), Fr(1, 1 << 44), Fr(1, 1 << 14), Fr(1, 2), 1 - Fr(1, 1 << 24), 1 - Fr(1, 1 << 53), Fr(1)]
 G_EDGE = [("probs", [Fr(1), Fr(0)]), ("probs", [Fr(0), Fr(1)]), ("probs", [1 - _T24, _T24]),
           ("probs", [Fr(2), Fr(0)]), ("probs", [Fr(1, 2), Fr(1, 2)]),
           ("logits", [Fr(0), Fr(-20)]), ("logits", [Fr(-88), Fr(0)]), ("logits", [Fr(0), Fr(100)]),
@@ -137,20 +144,37 @@ def _table(rng, M):
 ALL_FAMS = ["bern1", "bern2", "bern3", "cat2w", "cat3", "onehot3", "cat2"]
 
 
+def model_probs(check, case):
+    """self.probs of the Gumbel distribution of a case (raw, as the dtype holds them)"""
+    return [fs(x) for x in check._gumbel_dist(case).probs.tolist()]
+
+
 class C19(PropertyCheck):
     pid = "C19"
     rule = ("estimator cases: every family (1-3 independent Bernoulli, 2/3-way (one-hot) categorical, two "
             "categoricals; probs and logits parametrisations, dyadic probabilities) x N in {1,2} x with/without "
-            "control variate; each case enumerates the whole of Omega^N. relaxed cases: grid of u, v incl. the "
-            "clamped extremes. SRSWOR: all (total, given) <= 6, every forced/free outcome pattern. "
+            "control variate, plus a near-boundary pass (probabilities 2^-24, 1-2^-24, 2^-12; logits +-17, +-20) "
+            "over every family and parametrisation; each case enumerates the whole of Omega^N. relaxed cases: "
+            "LogisticBernoulli probs in {0, 2^-60, 2^-53, 2^-24, .., 1-2^-24, 1-2^-53, 1} and logits up to "
+            "+-100 x draws u, v from a grid that contains 0 and 1 x float64/float32 x validate_args; "
+            "GumbelOneHotCategorical with probs and logits, one-hot / near-one-hot / unnormalised probs and "
+            "logits spread by 20..100, every conditioning class, draws next to 0 and 1, both dtypes; "
+            "Relax/ST estimators at p = k/16 for every k in 0..16 and (combination logic) at boundary "
+            "parameters, Bernoulli and categorical. SRSWOR: all (total, given) <= 6, every forced/free "
+            "outcome pattern, genuine seeds up to total = 64 (257 thorough). "
             "binomial: every (n, k) with n <= 66 in both branches. non-trivial: sample space of >= 4 points "
             "(estimators), >= 1 free draw (SRSWOR), n >= 2 (combinatorics); distinct by the case")
     assumptions = [
         "autograd returns the derivative; torch.exp/log/sigmoid/softmax/binary_cross_entropy_with_logits at "
-        "their documented meaning; float64 rounding not modelled (tolerance 1e-9)",
+        "their documented meaning; float64 rounding not modelled (tolerance 1e-9; a float32 implementation "
+        "is compared with the binary64 model at the same float32 inputs to 1e-4)",
         "proposal.sample / torch.rand / torch.rand_like / torch.bernoulli replaced by enumerating stubs; "
         "torch.bernoulli(p) can return only 1 when p = 1 and only 0 when p = 0",
-        "probabilities handed to the Lean model are torch's own float64 values as exact rationals",
+        "probabilities handed to the Lean model are torch's own float64 values as exact rationals; "
+        "self.logits / self.probs of the relaxed distributions (probs_to_logits, log_softmax) are taken from "
+        "torch, the clamp_probs inside rsample / csample is part of the model",
+        "estimator families never carry a probability of exactly 0 (the theorems assume P(b) != 0; torch's "
+        "clamp_probs cuts the gradient of log P there)",
     ]
     exhaustive = {"quick": False, "thorough": False}
     quick_budget_s = 200
@@ -228,7 +252,7 @@ class C19(PropertyCheck):
                     pairs = [(u, U_GRID[(i + sh) % len(U_GRID)]) for i, u in enumerate(U_GRID)]
                 for u, v in pairs:
                     yield {"kind": "bern", "param": par, "value": fs(val), "dtype": dtype,
-                           "u": fs(u), "v": fs(v)}
+                           "u": fs(u), "v": fs(v), "validate": rng.random() < 0.5}
         # GumbelOneHotCategorical: random interior logits / simplex points, plus the boundary list
         # (one-hot and near-one-hot probs, unnormalised probs, logits spread by 20 / 88 / 100), every
         # conditioning class (also the zero-probability ones), both dtypes.  For two classes the
@@ -239,7 +263,8 @@ class C19(PropertyCheck):
             th = _logits(rng, V) if par == "logits" else _simplex(rng, V)
             yield {"kind": "gumbel", "param": par, "theta": th, "dtype": rng.choice(["float64", "float32"]),
                    "us": [fs(rng.choice(G_GRID)) for _ in range(V)],
-                   "vs": [fs(rng.choice(G_GRID)) for _ in range(V)], "k": rng.randrange(V)}
+                   "vs": [fs(rng.choice(G_GRID)) for _ in range(V)], "k": rng.randrange(V),
+                   "validate": rng.random() < 0.5}
         gq = G_GRID if big else G_GRID_Q
         for dtype in ("float64", "float32"):
             for par, th in G_EDGE:
@@ -252,7 +277,7 @@ class C19(PropertyCheck):
                     for k in (range(V) if V == 2 else [rng.randrange(V)]):
                         yield {"kind": "gumbel", "param": par, "theta": [fs(x) for x in th], "dtype": dtype,
                                "us": [fs(rng.choice(G_GRID)) for _ in range(V)],
-                               "vs": [fs(x) for x in vs], "k": k}
+                               "vs": [fs(x) for x in vs], "k": k, "validate": rng.random() < 0.5}
         # ---- estimators: whole sample space
         reps = 2 if not big else 12
         for _ in range(reps):
@@ -288,7 +313,9 @@ class C19(PropertyCheck):
                         sq = _family(rng, which, edge=rng.random() < 0.5, par=rng.choice(["probs", "logits"]))
                         while fam.n_points(sq) != M or sq["fam"] != sp["fam"]:
                             sq = _family(rng, which, edge=rng.random() < 0.5)
-                        yield {"kind": "is", "proposal": sp, "density": rng.choice([sq, "same"]), "N": N,
+                        # N = 1 only: with a proposal probability of ~1e-9 per variable the weights P/Q
+                        # reach 1e20 and the SUM over two samples cancels catastrophically in float64
+                        yield {"kind": "is", "proposal": sp, "density": rng.choice([sq, "same"]), "N": 1,
                                "f": _table(rng, M)}
                     if which in ("bern1", "cat2w", "cat3", "onehot3"):
                         sp = _family(rng, which, edge=True, par=par)
@@ -344,6 +371,21 @@ class C19(PropertyCheck):
                    "us": [fs(draw()) for _ in range(N)],
                    "vs": [fs(draw()) for _ in range(N)], "f": _table(rng, 2),
                    "cv": [fs(_dy(rng, -2, 2, 4)), fs(_dy(rng, -2, 2, 4)), fs(_dy(rng, 1, 3, 4))]}
+            # the same through the categorical relaxation (gradient along one parameter coordinate)
+            if i % 2 == 0:
+                if i % 8 == 0:
+                    gpar, gth = rng.choice(G_EDGE)
+                    gth = [fs(x) for x in gth]
+                else:
+                    V = rng.choice([2, 3])
+                    gpar = rng.choice(["logits", "probs"])
+                    gth = _logits(rng, V) if gpar == "logits" else _simplex(rng, V)
+                V = len(gth)
+                yield {"kind": "relax_comb", "dist": "gumbel", "param": gpar, "theta": gth, "N": N,
+                       "coord": rng.randrange(V),
+                       "us": [[fs(draw()) for _ in range(V)] for _ in range(N)],
+                       "vs": [[fs(draw()) for _ in range(V)] for _ in range(N)], "f": _table(rng, V),
+                       "cv": [fs(_dy(rng, -2, 2, 4)), fs(_dy(rng, -2, 2, 4)), fs(_dy(rng, 1, 3, 4))]}
 
     # ================================================================ implementation
     def run_impl(self, case):
@@ -396,12 +438,20 @@ class C19(PropertyCheck):
         return v, g
 
     @staticmethod
-    def _cmp_multi(tag, a, b):
+    def _gtol(spec):
+        """tolerance for a per-tuple autograd gradient of log P: 1e-9, unless the differentiated
+        distribution has a per-variable probability p below ~4e-6, where torch's own
+        `sigmoid(l) - target` / `onehot - softmax` carries a relative error of eps / p (conditioning,
+        not an error of the estimator); the averages over the sample space keep 1e-9."""
+        return max(fam.TOL, 16 * EPS64 / fam.min_marginal(spec))
+
+    @staticmethod
+    def _cmp_multi(tag, a, b, gtol=fam.TOL):
         out = []
         if not close(a[0], b[0]):
             out.append(f"{tag}: value impl={float(F(a[0]))!r} model={float(F(b[0]))!r}")
         for j, (x, y) in enumerate(zip(a[1], b[1])):
-            if not close(x, y):
+            if not close(x, y, gtol):
                 out.append(f"{tag}: grad[{j}] impl={float(F(x))!r} model={float(F(y))!r}")
         if len(a[1]) != len(b[1]):
             out.append(f"{tag}: gradient sizes differ {len(a[1])} vs {len(b[1])}")
@@ -452,8 +502,9 @@ class C19(PropertyCheck):
 
     def _cmp_direct(self, case, impl, model):
         out = []
+        gtol = self._gtol(case["dist"])
         for i, (a, b) in enumerate(zip(impl["per_tuple"], model["per_tuple"])):
-            out += self._cmp_multi(f"tuple {i}", a, b)
+            out += self._cmp_multi(f"tuple {i}", a, b, gtol)
         if len(impl["per_tuple"]) != len(model["per_tuple"]):
             out.append("number of tuples differs")
         return out[:6]
@@ -512,8 +563,9 @@ class C19(PropertyCheck):
     def _cmp_is(self, case, impl, model):
         a, extra = self._split_is(case, impl["per_tuple"])
         out = []
+        gtol = self._gtol(case["proposal"] if case["density"] == "same" else case["density"])
         for i, (x, y) in enumerate(zip(a, model["per_tuple"])):
-            out += self._cmp_multi(f"tuple {i}", x, y)
+            out += self._cmp_multi(f"tuple {i}", x, y, gtol)
         for i, e in enumerate(extra):
             if any(F(x) != 0 for x in e):
                 out.append(f"tuple {i}: non-zero gradient w.r.t. the proposal parameters {e}")
@@ -970,11 +1022,12 @@ class C19(PropertyCheck):
             return LogisticBernoulli(logits=lg) if case["param"] == "logits" else LogisticBernoulli(
                 probs=torch.sigmoid(lg))
         val = torch.tensor([float(F(case["value"]))], dtype=dt)
+        va = True if case.get("validate") else None
         if case["param"] == "logits":
-            return LogisticBernoulli(logits=val)
+            return LogisticBernoulli(logits=val, validate_args=va)
         if case["param"] == "sigmoid":
-            return LogisticBernoulli(probs=torch.sigmoid(val))
-        return LogisticBernoulli(probs=val)
+            return LogisticBernoulli(probs=torch.sigmoid(val), validate_args=va)
+        return LogisticBernoulli(probs=val, validate_args=va)
 
     def _impl_bern(self, case):
         import torch
@@ -1039,10 +1092,11 @@ class C19(PropertyCheck):
         out = []
         tol = TOL_D[case.get("dtype", "float64")]
         ovf = self._lb_overflow(case, impl, "z")
-        keys = ["z", "tlog"] + ([] if ovf else ["logprob", "clog"])
-        # the discrete outcome only when z is clear of 0 by more than the tolerance (margin rule)
-        if self._finite(model["z"]) and abs(F(model["z"])) > Fr(tol):
-            keys.append("b")
+        keys = ["z"] + ([] if ovf else ["logprob"])
+        # the discrete outcome b = H(z), and what depends on it, only when z is clear of 0 by more
+        # than the tolerance (margin rule)
+        if self._finite(model["z"]) and abs(F(model["z"])) > 10 * Fr(tol):
+            keys += ["b", "tlog"] + ([] if ovf else ["clog"])
         for k in keys:
             if not self._fclose(impl[k], model[k], tol):
                 out.append(f"{k}: impl={impl[k]} model={model[k]}")
@@ -1080,6 +1134,16 @@ class C19(PropertyCheck):
                 continue
             if F(c["thr"]) != bb:
                 fails.append((f"{head}: threshold(csample(b={bb})) = {c['thr']} (zcond={c['zc']})", None))
+            if model is not None and not self._fclose(c["zc"], model[f"c{bb}"]["zc_spec"], TOL_SPEC[dtn]):
+                # the specific known behaviour: a logits-parametrised distribution whose sigmoid(logits)
+                # lies outside [eps, 1 - eps]; csample then follows the CLAMPED probability (= the model)
+                p_raw = F(impl["p"])
+                known = (case["param"] == "logits" and (p_raw < Fr(EPS[dtn]) or p_raw > 1 - Fr(EPS[dtn]))
+                         and self._fclose(c["zc"], model[f"c{bb}"]["zc"], tol))
+                fails.append((f"{head}: csample(b={bb}, v={case['v']}) = {float(F(c['zc']))!r} is not the relaxed "
+                              f"sample at the uniform point of the region of b, "
+                              f"{float(F(model[f'c{bb}']['zc_spec']))!r} (it is drawn from the distribution with probs "
+                              f"clamped to [eps, 1-eps])", SIG_CLAMP if known else None))
             why = self._factor_fail(tol, c["logprob_zc"], c["tlog"], c["clog"])
             if why:
                 sig = osig if self._lb_overflow(case, impl, f"c{bb}") and "not finite" in why else None
@@ -1102,7 +1166,7 @@ class C19(PropertyCheck):
         if "theta" not in case:          # cases written before `probs` was exercised
             return GumbelOneHotCategorical(logits=torch.tensor([float(F(x)) for x in case["logits"]], dtype=dt))
         th = torch.tensor([float(F(x)) for x in case["theta"]], dtype=dt)
-        return GumbelOneHotCategorical(**{case["param"]: th})
+        return GumbelOneHotCategorical(**{case["param"]: th}, validate_args=True if case.get("validate") else None)
 
     @staticmethod
     def _gV(case):
@@ -1200,6 +1264,16 @@ class C19(PropertyCheck):
         if impl["thr_zc"] != bk:
             fails.append((f"{head}: threshold(csample(b)) = {impl['thr_zc']} != b = {bk} "
                           f"(zcond = {[float(F(x)) for x in impl['zc']]}, v = {case['vs']})", asig))
+        if model is not None and asig is None and not all(
+                self._fclose(a, b, TOL_SPEC[dtn]) for a, b in zip(impl["zc"], model["zc_spec"])):
+            raw = [F(x) for x in model_probs(self, case)]
+            known = (case.get("param", "logits") == "logits" and any(x < Fr(EPS[dtn]) for x in raw)
+                     and all(self._fclose(a, b, tol) for a, b in zip(impl["zc"], model["zc"])))
+            fails.append((f"{head}: csample(b = e_{case['k']}, v = {case['vs']}) = "
+                          f"{[float(F(x)) for x in impl['zc']]} is not the conditional relaxed sample of this "
+                          f"distribution, {[float(F(x)) if self._finite(x) else x for x in model['zc_spec']]} "
+                          f"(class probabilities clamped to [eps, 1-eps])",
+                          SIG_CLAMP if known else None))
         why = self._factor_fail(tol, impl["logprob_zc"], impl["tlog_k"], impl["clog_zc"])
         if why:
             fails.append((f"{head}: factorisation at zcond = csample(b = e_{case['k']}): {why}", asig))
@@ -1304,9 +1378,21 @@ class C19(PropertyCheck):
         """the per-sample quantities RelaxEstimator combines, each with d/dparameter, obtained from the
         distribution's own methods under the same draws."""
         import torch
-        from pydrobert.torch.distributions import LogisticBernoulli
+        from pydrobert.torch.distributions import LogisticBernoulli, GumbelOneHotCategorical
         N = case["N"]
         par = case.get("param", "logits")
+        if case.get("dist") == "gumbel":
+            V = len(case["theta"])
+            th = torch.tensor([float(F(x)) for x in case["theta"]], dtype=torch.float64, requires_grad=True)
+            d = GumbelOneHotCategorical(**{par: th})
+            U = torch.tensor([[float(F(x)) for x in r] for r in case["us"]], dtype=torch.float64)
+            Vv = torch.tensor([[float(F(x)) for x in r] for r in case["vs"]], dtype=torch.float64)
+            t = torch.tensor([float(F(x)) for x in case["f"]], dtype=torch.float64)
+            func = lambda b: t[b.detach().argmax(-1)]
+            a, bb, tau = [float(F(x)) for x in case["cv"]]
+            wv = torch.arange(1, V + 1, dtype=torch.float64) / V
+            cv = lambda z: (a * torch.sigmoid(z / tau) * wv).sum(-1) + bb * torch.tanh(z / 4).sum(-1)
+            return th, d, U, Vv, func, cv
         lg = torch.tensor([float(F(case["value"] if "value" in case else case["logit"]))],
                           dtype=torch.float64, requires_grad=True)
         d = LogisticBernoulli(**{par: lg})
@@ -1324,10 +1410,11 @@ class C19(PropertyCheck):
         with fam.torch_patched(rand=lambda *a, **kk: U.clone(), rand_like=lambda *a, **kk: Vv.clone()):
             v = RelaxEstimator(d, func, case["N"], cv)()
             g, = torch.autograd.grad(v.sum(), [lg])
+            g = g.reshape(-1)[case.get("coord", 0)]
             v2 = StraightThroughEstimator(d, func, case["N"])()
             z = d.rsample([case["N"]])
             zc = d.csample(d.threshold(z))
-        return {"relax": [fs(v.item()), fs(g.item())], "st": fs(v2.item()),
+        return {"relax": [fs(v.sum().item()), fs(g.item())], "st": fs(v2.sum().item()),
                 "z": [fs(x) for x in z.reshape(-1).tolist()], "zc": [fs(x) for x in zc.reshape(-1).tolist()]}
 
     def _relax_samples(self, case):
@@ -1343,9 +1430,9 @@ class C19(PropertyCheck):
 
         def dual(x, n):
             g, = torch.autograd.grad(x[n].sum(), [lg], retain_graph=True, allow_unused=True)
-            return [fs(x[n].item()), fs(0.0 if g is None else g.item())]
+            return [fs(x[n].sum().item()), fs(0.0 if g is None else g.reshape(-1)[case.get("coord", 0)].item())]
         for n in range(case["N"]):
-            samples.append({"f": [fs(fb[n].item())], "cvz": dual(cz, n), "cvzcond": dual(czc, n),
+            samples.append({"f": [fs(fb[n].sum().item())], "cvz": dual(cz, n), "cvzcond": dual(czc, n),
                             "logp": dual(lp, n)})
         return samples
 
@@ -1366,7 +1453,8 @@ class C19(PropertyCheck):
 
     def _pred_relax_comb(self, case, impl, model):
         fails = []
-        head = f"LogisticBernoulli({case.get('param', 'logits')}={case.get('value', case.get('logit'))})"
+        head = (f"{'GumbelOneHotCategorical' if case.get('dist') == 'gumbel' else 'LogisticBernoulli'}"
+                f"({case.get('param', 'logits')}={case.get('theta', case.get('value', case.get('logit')))})")
         if not all(self._finite(x) for x in impl["z"] + impl["zc"]):
             fails.append((f"{head}: relaxed samples inside RelaxEstimator are not real: z = {impl['z']}, "
                           f"zcond = {impl['zc']}", None))
@@ -1435,6 +1523,8 @@ class C19(PropertyCheck):
         elif k in ("relax_value", "st_value"):
             ks = case["ks"] if k == "st_value" else [case["k"]]
             t += [f"{k}:{'boundary' if any(x in (0, 16) for x in ks) else 'interior'}"]
+        elif k == "relax_comb" and case.get("dist") == "gumbel":
+            t += [f"relax_comb:gumbel/{case['param']}"]
         elif k == "relax_comb":
             par = case.get("param", "logits")
             x = F(case.get("value", case.get("logit", "0")))
